@@ -124,6 +124,181 @@ def reg_rule_variant(plan, inst_order, ops_spec, res, summary):
                     return
 
 
+def user_seq_stream(res, rng, n):
+    """user-defined sequential leaves (the property speaks about every sequential block, not only the library's):
+    * Moore FSMs that advance an internal state in clock() and decode their outputs in propagate() (no prepare at all on edges where
+      nothing else changes), feeding enable-gated register chains and a StreamCapture;
+    * a leaf that calls Simulator.stop() from inside clock() at chosen edges (a breakpoint block): the edge in progress must complete
+      and the run must be resumable.
+    Oracle (implementation only): for several splittings of the same N cycles into clk(n) calls -- resuming after every stop() -- the
+    wire values at every common cycle count, the captured stream and the final state equal those of N single clk(1) calls."""
+    import py4hw, contextlib, io
+    from py4hw.logic.simulation import StreamCapture
+
+    class Moore(py4hw.Logic):
+        def __init__(self, parent, name, go, code, busy, period, mul):
+            super().__init__(parent, name)
+            self.go = self.addIn('go', go)
+            self.code = self.addOut('code', code)
+            self.busy = self.addOut('busy', busy)
+            self.state, self.period, self.mul = 0, period, mul
+
+        def clock(self):
+            if self.state == 0:
+                if self.go.get() & 1:
+                    self.state = 1
+            elif self.state >= self.period:
+                self.state = 0
+            else:
+                self.state += 1
+
+        def propagate(self):
+            self.code.put(self.state * self.mul)
+            self.busy.put(1 if self.state != 0 else 0)
+
+    class Stopper(py4hw.Logic):
+        def __init__(self, parent, name, a, cnt, stops, simref, noisy):
+            super().__init__(parent, name)
+            self.a = self.addIn('a', a)
+            self.cnt = self.addOut('cnt', cnt)
+            self.count, self.stops, self.simref, self.noisy = 0, set(stops), simref, noisy
+
+        def clock(self):
+            self.count += 1
+            if self.noisy:
+                self.cnt.prepare(self.count + self.a.get())
+            if self.count in self.stops:
+                self.simref[0].stop()          # request to stop after this edge
+
+    def build(spec):
+        hw = py4hw.HWSystem()
+        go = hw.wire('go')
+        w = spec['w']
+        code, busy = hw.wire('code', w), hw.wire('busy')
+        qs = [hw.wire(f'q{k}', w) for k in range(spec['chain'])]
+        cnt = hw.wire('cnt', w)
+        simref = [None]
+        if spec['go_seq']:
+            py4hw.Sequence(hw, 'go', spec['go_seq'], go)
+        else:
+            py4hw.Constant(hw, 'go', 1, go)
+        Moore(hw, 'fsm', go, code, busy, spec['period'], spec['mul'])
+        prev = code
+        for k, q in enumerate(qs):
+            py4hw.Reg(hw, f'r{k}', prev, q, enable=busy if spec['en'][k] else None)
+            prev = q
+        cap = StreamCapture(hw, 'cap', prev)
+        Stopper(hw, 'stp', qs[0], cnt, spec['stops'], simref, spec['noisy'])
+        sim = hw.getSimulator()
+        simref[0] = sim
+        return hw, sim, [code, busy, cnt] + qs, cap
+
+    def run(spec, splitting):
+        hw, sim, wires, cap = build(spec)
+        marks = {}
+        for n in splitting:
+            target = sim.total_clks + n
+            guard = 0
+            while sim.total_clks < target and guard < 4 * n + 8:
+                sim.clk(target - sim.total_clks)      # resumes after a stop() requested from inside clock()
+                guard += 1
+            marks[sim.total_clks] = tuple(w_.get() for w_ in wires)
+        return marks, list(cap.data), sim.total_clks
+
+    for i in range(n):
+        r = rng.fork(i)
+        N = r.randint(4, 24)
+        chain = r.randint(1, 3)
+        spec = dict(w=r.choice([4, 8]), chain=chain, period=r.randint(1, 6), mul=r.choice([1, 3, 7]),
+                    en=[r.chance(2, 3) for _ in range(chain)],
+                    go_seq=[] if r.chance(1, 2) else [r.randint(0, 1) for _ in range(r.randint(1, 5))],
+                    stops=sorted({r.randint(1, N) for _ in range(r.choice([0, 1, 2, 3]))}),
+                    noisy=r.chance(1, 3))
+        splits = [[N]]
+        for _ in range(3):
+            rest, sp = N, []
+            while rest > 0:
+                k = r.randint(1, rest)
+                sp.append(k)
+                rest -= k
+            splits.append(sp)
+        try:
+            with contextlib.redirect_stdout(io.StringIO()):
+                # reference: single-cycle calls and a breakpoint block that never fires
+                ref_marks, ref_cap, ref_clks = run(dict(spec, stops=[]), [1] * N)
+                outs = [(sp, run(dict(spec), sp)) for sp in splits]
+        except Exception as e:
+            res.hist('simulation_errors', f'userseq:{type(e).__name__}:{str(e)[:40]}')
+            continue
+        res.count(('userseq', i, str(spec)), nontrivial=True, hist={'user_seq_stops': len(spec['stops'])})
+        for sp, (marks, cap, clks) in outs:
+            bad = None
+            if clks != ref_clks:
+                bad = f'{clks} edges were simulated instead of {ref_clks}'
+            else:
+                for c, st in marks.items():
+                    if ref_marks.get(c) != st:
+                        bad = f'after {c} edges the wires (code,busy,cnt,q..) are {st}, with single-cycle calls {ref_marks.get(c)}'
+                        break
+                if bad is None and cap != ref_cap:
+                    bad = f'captured stream {cap[:12]} differs from {ref_cap[:12]}'
+            if bad:
+                res.fail('clk(n) differs from n single-cycle clk(1) calls (user-defined sequential leaves, stop() from inside clock())',
+                         dict(design='Moore FSM -> enable-gated Reg chain -> StreamCapture, Stopper leaf', spec=spec, splitting=sp, detail=bad))
+                break
+
+
+def asyncmem_stream(res, rng, n):
+    """AsynchronousMemory (a propagatable block with state) feeding registers: read/write addresses, write enable and data from
+    sequences; clk(N) against N x clk(1) and a random splitting.  Case 0 is the former witness of C05-asyncmem-read-before-write
+    (fixed in /repo 2897ec7): a recurrence is a violation."""
+    import py4hw, contextlib, io
+    from py4hw.logic.storage import AsynchronousMemory
+
+    def build(spec):
+        hw = py4hw.HWSystem()
+        ra, wa, we = hw.wire('ra', 2), hw.wire('wa', 2), hw.wire('we')
+        wd, rd, q, q2 = hw.wire('wd', 8), hw.wire('rd', 8), hw.wire('q', 8), hw.wire('q2', 8)
+        py4hw.Sequence(hw, 'ra', spec['ra'], ra)
+        py4hw.Sequence(hw, 'wa', spec['wa'], wa)
+        py4hw.Sequence(hw, 'we', spec['we'], we)
+        py4hw.Sequence(hw, 'wd', spec['wd'], wd)
+        AsynchronousMemory(hw, 'm', ra, wa, we, rd, wd)
+        py4hw.Reg(hw, 'r', rd, q)
+        py4hw.Reg(hw, 'r2', q, q2)
+        return hw.getSimulator(), (rd, q, q2)
+
+    for i in range(n):
+        r = rng.fork(i)
+        if i == 0:
+            spec, N = dict(ra=[1], wa=[1], we=[1], wd=[5, 6, 7, 8, 9]), 4
+        else:
+            same = r.chance(1, 2)
+            a = [r.randint(0, 3) for _ in range(r.randint(1, 4))]
+            spec = dict(ra=a, wa=a if same else [r.randint(0, 3) for _ in range(r.randint(1, 4))],
+                        we=[r.randint(0, 1) for _ in range(r.randint(1, 3))] if r.chance(1, 2) else [1],
+                        wd=[r.randint(0, 255) for _ in range(r.randint(1, 6))])
+            N = r.randint(2, 12)
+        rest, sp = N, []
+        while rest > 0:
+            k = r.randint(1, rest)
+            sp.append(k)
+            rest -= k
+        outs = []
+        with contextlib.redirect_stdout(io.StringIO()):
+            for split in ([N], [1] * N, sp):
+                sim, ws = build(spec)
+                for k in split:
+                    sim.clk(k)
+                outs.append((split, tuple(w.get() for w in ws)))
+        res.count(('asyncmem', i, str(spec), N), nontrivial=True, hist={'asyncmem_same_address': int(spec['ra'] == spec['wa'])})
+        if len({o[1] for o in outs}) != 1:
+            res.fail('clk(n) differs from n single-cycle clk(1) calls (AsynchronousMemory feeding registers)',
+                     dict(design='Sequences -> AsynchronousMemory -> Reg -> Reg', spec=spec, cycles=N,
+                          results=[dict(splitting=o[0], rd_q_q2=list(o[1])) for o in outs],
+                          note='regression of C05-asyncmem-read-before-write (fixed in 2897ec7)' if i == 0 else ''))
+
+
 def main(res, tier, rng, replay):
     ok, metas, errors, changed = regenerate()
     for e in errors:
@@ -141,7 +316,7 @@ def main(res, tier, rng, replay):
         r = rng.fork(('d', i))
         plan = G.reg_chain_plan(r) if i % 3 == 2 else G.random_plan(r, r.randint(2, 24), seq_ratio=(1, 2), wmax=r.choice([2, 4, 8, 16]), n_domains=r.choice([0, 1, 2, 3]),
                              kinds=['And2', 'Or2', 'Not', 'Buf', 'Mux2', 'Sub', 'AddCarryIn', 'Constant', 'Bit', 'Reg', 'Sequence',
-                                    'SynchronousMemory', 'AutoReset', 'ShiftRightConstant'])
+                                    'SynchronousMemory', 'AutoReset', 'ShiftRightConstant'] + (['AsynchronousMemory'] if i % 4 == 1 else []))
         nseq = sum(1 for nd in plan['nodes'] if nd['kind'] in G.SEQ)
         order = r.shuffle(range(len(plan['nodes'])))
         # op list as data (wire names) so that it can be replayed on several builds
@@ -193,6 +368,8 @@ def main(res, tier, rng, replay):
         nb.run()
     except ToolFailure as e:
         res.broken.append(('correspondence', 'net-sim-permuted', str(e)[:300]))
+    user_seq_stream(res, rng.fork('userseq'), 60 if tier == 'quick' else 1500)
+    asyncmem_stream(res, rng.fork('asyncmem'), 60 if tier == 'quick' else 1500)
     res.cov['rule'] = ('seeded random netlists with register chains/feedback, memories, sequences, AutoReset; each built 4 times from the same '
                        'plan: reference, externally permuted clockables+driver order, clk(n) split into clk(1), and a permuted run compared '
                        'wire-for-wire with the Lean model; non-trivial = at least 2 sequential leaves; oracle on the implementation: permuted == '
